@@ -2,6 +2,7 @@ package verifsimrt
 
 import (
 	"fmt"
+	"os"
 	"reflect"
 	"runtime"
 	"sort"
@@ -45,6 +46,8 @@ type task struct {
 	slot     interface{}
 	slotOK   bool
 	matched  bool
+	resumedAt int           // step counter when the task last got the baton
+	exited    chan struct{} // closed when the task's goroutine has ended
 }
 
 type simTimer struct {
@@ -76,7 +79,7 @@ var (
 )
 
 func resetTasks() {
-	mainTask = &task{id: 0, wake: make(chan struct{}, 1), idleEpoch: -1}
+	mainTask = &task{id: 0, wake: make(chan struct{}, 1), idleEpoch: -1, exited: make(chan struct{})}
 	tasks = []*task{mainTask}
 	cur = mainTask
 	dead, deadlock = false, false
@@ -114,17 +117,19 @@ func Go(f func()) {
 		return
 	}
 	taskSeq++
-	t := &task{id: taskSeq, wake: make(chan struct{}, 1), idleEpoch: -1}
+	t := &task{id: taskSeq, wake: make(chan struct{}, 1), idleEpoch: -1, exited: make(chan struct{})}
 	tasks = append(tasks, t)
 	epoch++
 	record("GO", "", int64(t.id))
 	taskWG.Add(1)
 	go func() {
 		defer taskWG.Done()
+		defer close(t.exited)
 		<-t.wake
 		if dead {
 			return
 		}
+		t.resumedAt = ticks
 		defer func() {
 			if r := recover(); r != nil {
 				// a panic in a goroutine kills a Go program
@@ -195,11 +200,24 @@ func switchTo(next *task) {
 		return
 	}
 	switches++
+	noteProgress(me)
 	cur = next
 	next.wake <- struct{}{}
 	<-me.wake
 	if dead {
 		runtime.Goexit()
+	}
+	me.resumedAt = ticks
+}
+
+// noteProgress: a task that executed any step since it got the baton may have changed what
+// others wait for by means the simulator does not see (close(ch), an atomic store, a plain
+// variable): everybody blocked gets another try. A task that only retried its own blocked
+// operation and failed has changed nothing — that is what keeps deadlocks detectable.
+func noteProgress(t *task) {
+	if ticks != t.resumedAt {
+		epoch++
+		t.resumedAt = ticks
 	}
 }
 
@@ -244,6 +262,7 @@ func YieldBlocked() {
 		runtime.Goexit()
 	}
 	me := cur
+	noteProgress(me)
 	me.idleEpoch = epoch
 	for {
 		if len(timers) > 0 {
@@ -317,16 +336,41 @@ func reportDeadlockNoExit() {
 	endRunFrom(cur)
 }
 
-// endRunFrom ends the run from task t (which holds the baton): everybody else is told to exit.
+// endRunFrom ends the run from task t (which holds the baton, or nil: the harness after the
+// main task ended): every other task is told to exit, ONE AT A TIME — each unwinds (its
+// deferred calls run) before the next is woken, so nothing of the program ever runs in
+// parallel. What they do while unwinding never happened (record drops it): in a real
+// process they would simply have stopped.
 func endRunFrom(t *task) {
 	dead = true
-	for _, x := range tasks {
-		if x != t {
-			select {
-			case x.wake <- struct{}{}:
-			default:
-			}
+	for _, x := range append([]*task(nil), tasks...) {
+		if x == t {
+			continue
 		}
+		select {
+		case x.wake <- struct{}{}:
+		default:
+		}
+		select {
+		case <-x.exited:
+		case <-time.After(30 * time.Second):
+			Tainted = "a goroutine started by the program did not end with the run (blocked outside the simulator's control)"
+			buf := make([]byte, 1<<16)
+			buf = buf[:runtime.Stack(buf, true)]
+			fmt.Fprintf(os.Stderr, "verifsimrt: goroutines at the end of the run:\n%s\n", buf)
+			return
+		}
+	}
+}
+
+// Gosched stands in for runtime.Gosched(): let somebody else run, if anybody can.
+func Gosched() {
+	if !running || dead || len(tasks) < 2 {
+		return
+	}
+	if next := pickNext(cur); next != nil {
+		cur.idleEpoch = -1
+		switchTo(next)
 	}
 }
 
